@@ -592,7 +592,7 @@ def coded_stage(out, q, seed, err_filter, what="coded regions"):
     scn = stage_scenarios(out, "huffman-model", "HuffmanMC.tla", c, HUFF_INV)
     validate_traces(out, "huffman-traces", "TraceHuffman.tla", os.path.join(SPEC, "TraceHuffman.cfg"),
                     huffman_jobs(out, "huffman-model", scn, tys=("u8",) if q else ("u8", "u16")), err_filter=err_filter)
-    c = {"NSlots": 2, "MaxGen0": 2, "MaxMerge": 1, "MaxCoded": 2, "MaxClear": 1, "StrSel": "quick", "Emit": True}
+    c = {"NSlots": 2, "MaxGen0": 2, "MaxMerge": 1, "MaxCoded": 2, "MaxClear": 1, "MaxReserve": 1, "StrSel": "quick", "Emit": True}
     scn = stage_scenarios(out, "dict-model", "DictMC.tla", c, DICT_INV, timeout=3000)
     validate_traces(out, "dict-traces", "TraceDict.tla", os.path.join(SPEC, "TraceDict.cfg"),
                     dict_jobs(out, "dict-model", scn, 2, flavours=("region", "stack")), err_filter=err_filter)
@@ -679,7 +679,7 @@ def summary_stage(out, q, seed):
 def dictionary_property(out, q, seed):
     # thorough: a second merge generation (the larger string set multiplies the scenarios beyond what one
     # trace validation digests in reasonable time; it is used by the random scenarios instead)
-    c = {"NSlots": 2, "MaxGen0": 2, "MaxMerge": 1 if q else 2, "MaxCoded": 2, "MaxClear": 1,
+    c = {"NSlots": 2, "MaxGen0": 2, "MaxMerge": 1 if q else 2, "MaxCoded": 2, "MaxClear": 1, "MaxReserve": 1 if q else 0,
          "StrSel": "quick", "Emit": True}
     scn = stage_scenarios(out, "model", "DictMC.tla", c, DICT_INV, timeout=3000)
     tcfg = os.path.join(SPEC, "TraceDict.cfg")
@@ -912,7 +912,7 @@ def run_property(prop, tier, seed):
         region_stage(out, "two-slots", prop, allnames, 2, 3 if q else 4, 1, 3,
                      ["push", "push_from", "reserve_regions"])
         ic_stage(out, "index-through-region", prop, ["opt", "list", "vec"], "full", 4 if q else 5, 1)
-        coded_stage(out, q, seed, lambda e: e["why"] == "earlier-item-changed")
+        coded_stage(out, q, seed, lambda e: e["why"] in ("earlier-item-changed", "reserve-changed-reads"))
         # long random histories: items of every bit length at every bit offset, re-read after each later push
         huffman_random_stage(out, q, seed, lambda e: e["why"] == "earlier-item-changed", "huffman-histories")
         coded_columns_stage(out, q, seed, lambda e: e["why"] == "earlier-row-changed")
@@ -961,7 +961,8 @@ def run_property(prop, tier, seed):
                     ["copy", "extend", "clear", "reserve", "reserve_regions", "with_capacity", "merge_capacity"])
         # merged coded regions read back what is pushed, within their acceptance contract
         coded_stage(out, q, seed, lambda e: e["why"] in ("merge-panicked", "read-failed", "read-differs", "read-back-differs",
-                                                         "push-panicked", "ambiguous-input-accepted"))
+                                                         "push-panicked", "ambiguous-input-accepted", "reserve-changed-reads",
+                                                         "reserve-panicked") or e.get("reserved", False))
         # generations of merges whose sources were fed in every input form (incl. read items of coded containers):
         # the merged container must accept what its sources' statistics cover
         huffman_random_stage(out, q, seed, lambda e: e["why"] in ("merge-panicked", "push-panicked", "read-failed", "read-differs",
